@@ -399,3 +399,15 @@ def r8(ctx, R):
 def r9(ctx, R):
     from . import c19
     c19.multistep_reset(ctx, R)
+
+
+@rule('C06', 'C06.R10', 'set-ups in which a step cannot start from its predecessor\'s end value are refused: multi-level time-parallel runs require the right end point to be a node, as an ERROR at construction (guards that must raise, shared with C20.R2)', floor=14)
+def r10(ctx, R):
+    from . import c20
+    c20.r2(ctx, R)
+
+
+@rule('C06', 'C06.R11', 'fixed step size means fixed step size: the only thing that shortens a step is the distance to Tend, bounded below by the step size the LEVEL was configured with (dt_initial of the level parameters, not a value read from the caller\'s description at run time; Tend-limiting skeleton shared with C09.R10)', floor=3)
+def r11(ctx, R):
+    from . import c09
+    c09.r10(ctx, R)
